@@ -25,40 +25,32 @@ func (r *Repository) GetFilePathsChangedByCommit(commitID Hash) ([]string, error
 	}
 
 	if len(parentCommitIDs) == 0 {
-		filePaths, err := r.executor("ls-tree", "--name-only", "-r", commitID.String()).executeString()
+		filePaths, err := r.executor("ls-tree", "--name-only", "-r", "-z", commitID.String()).executeRaw()
 		if err != nil {
 			return nil, fmt.Errorf("unable to identify all commit file paths: %w", err)
 		}
 
-		paths := strings.Split(filePaths, "\n")
-		return paths, nil
+		return splitNULDelimitedPaths(filePaths), nil
 	}
 
 	if len(parentCommitIDs) > 1 {
 		// Check if tree matches last commit
-		stdOut, err := r.executor("diff-tree", "--no-commit-id", "--name-only", "-r", parentCommitIDs[len(parentCommitIDs)-1].String(), commitID.String()).executeString()
+		stdOut, err := r.executor("diff-tree", "--no-commit-id", "--name-only", "-r", "-z", parentCommitIDs[len(parentCommitIDs)-1].String(), commitID.String()).executeRaw()
 		if err != nil {
 			return nil, fmt.Errorf("unable to diff commit against last parent commit: %w", err)
 		}
-		if stdOut == "" {
+		if len(stdOut) == 0 {
 			return nil, nil
 		}
 
 		pathSet := map[string]bool{}
 		for _, parentCommitID := range parentCommitIDs {
-			stdOut, err := r.executor("diff-tree", "--no-commit-id", "--name-only", "-r", parentCommitID.String(), commitID.String()).executeString()
+			stdOut, err := r.executor("diff-tree", "--no-commit-id", "--name-only", "-r", "-z", parentCommitID.String(), commitID.String()).executeRaw()
 			if err != nil {
 				return nil, fmt.Errorf("unable to diff commit against parent: %w", err)
 			}
-			if stdOut == "" {
-				continue
-			}
 
-			paths := strings.Split(stdOut, "\n")
-			for _, path := range paths {
-				if path == "" {
-					continue
-				}
+			for _, path := range splitNULDelimitedPaths(stdOut) {
 				pathSet[path] = true
 			}
 		}
@@ -75,14 +67,27 @@ func (r *Repository) GetFilePathsChangedByCommit(commitID Hash) ([]string, error
 		return paths, nil
 	}
 
-	stdOut, err := r.executor("diff-tree", "--no-commit-id", "--name-only", "-r", fmt.Sprintf("%s~1", commitID.String()), commitID.String()).executeString()
+	stdOut, err := r.executor("diff-tree", "--no-commit-id", "--name-only", "-r", "-z", fmt.Sprintf("%s~1", commitID.String()), commitID.String()).executeRaw()
 	if err != nil {
 		return nil, fmt.Errorf("unable to diff commit against parent: %w", err)
 	}
-	if stdOut == "" {
+	if len(stdOut) == 0 {
 		return nil, nil
 	}
 
-	paths := strings.Split(stdOut, "\n")
-	return paths, nil
+	return splitNULDelimitedPaths(stdOut), nil
+}
+
+// splitNULDelimitedPaths returns the paths in the NUL delimited (`-z`) output
+// of a Git command. With -z, Git outputs paths verbatim, without it paths with
+// special characters are quoted.
+func splitNULDelimitedPaths(output []byte) []string {
+	paths := []string{}
+	for _, path := range strings.Split(string(output), "\x00") {
+		if path == "" {
+			continue
+		}
+		paths = append(paths, path)
+	}
+	return paths
 }
